@@ -176,7 +176,7 @@ def run(case):
         return "a simulation time was produced twice: %r" % (times,)
     return None
 
-case = [('stream_open', 3), ('stream_close',), ('steps', 2)]
+case = [('stream_open', 2), ('steps', 1), ('step',), ('steps', 2), ('stream_finish',)]
 bad = run(case)
 print("script:", case)
 print("FAIL: " + bad if bad else "PASS")
